@@ -60,6 +60,10 @@ type Case struct {
 	DelayMs     int `json:"delay_ms,omitempty"`
 	Middlewares int `json:"middlewares,omitempty"`
 	MwHold      int `json:"mw_hold,omitempty"`
+	// connection options: WithAlwaysSpawnGoroutineFunc(true) (the invalidation handler starts re-runs on goroutines of
+	// their own instead of the invalidating one); WithMinRerunInterval (milliseconds; 0: one millisecond)
+	Spawn      bool `json:"spawn,omitempty"`
+	IntervalMs int  `json:"interval_ms,omitempty"`
 }
 
 // Snapshot of what the client of one subscription should hold at a quiescent point.
@@ -105,6 +109,8 @@ type runInfo struct {
 	ExpectSpawn, Spawned bool
 	WriteIdx, EndIdx     int
 	Deps                 map[string]int
+	StartInitial         bool // `initial` as StartExecution was told
+	StartIdx             int
 }
 
 type genInfo struct {
@@ -196,7 +202,7 @@ func analyze(evs []Event) *view {
 				}
 			}
 		case "mwstart":
-			v.runs[e.Run] = &runInfo{N: e.Run, Gen: e.Gen, ID: e.ID, Deps: map[string]int{}, WriteIdx: -1, EndIdx: -1}
+			v.runs[e.Run] = &runInfo{N: e.Run, Gen: e.Gen, ID: e.ID, Deps: map[string]int{}, WriteIdx: -1, EndIdx: -1, StartInitial: e.Initial, StartIdx: i}
 			v.runOrder = append(v.runOrder, e.Run)
 			if e.Gen >= 0 && e.Gen < len(v.gens) {
 				v.gens[e.Gen].Runs++
@@ -716,12 +722,20 @@ func RunCase(c Case, timeout time.Duration) (res *Result) {
 	if max <= 0 {
 		max = 3
 	}
-	conn := graphql.CreateConnection(ctx, sock, Schema(),
+	interval := time.Millisecond
+	if c.IntervalMs > 0 {
+		interval = time.Duration(c.IntervalMs) * time.Millisecond
+	}
+	opts := []graphql.ConnectionOption{
 		graphql.WithSubscriptionLogger(subLogger{rec}),
 		graphql.WithExecutionLogger(execLogger{rec}),
-		graphql.WithMinRerunInterval(time.Millisecond),
+		graphql.WithMinRerunInterval(interval),
 		graphql.WithMaxSubscriptions(max),
-		graphql.WithMakeCtx(rec.makeCtx(w)))
+		graphql.WithMakeCtx(rec.makeCtx(w))}
+	if c.Spawn {
+		opts = append(opts, graphql.WithAlwaysSpawnGoroutineFunc(func(context.Context, *graphql.Query) bool { return true }))
+	}
+	conn := graphql.CreateConnection(ctx, sock, Schema(), opts...)
 	conn.Use(rec.middleware)
 	for i := 0; i < c.Middlewares && i < 7; i++ {
 		conn.Use(w.UserMiddleware(i, c.MwHold))
